@@ -400,27 +400,41 @@ def graph_text(case):
     return "; ".join(src)
 
 
+ALLKINDS = ["list", "dict", "closure", "tuple", "struct", "default", "bound"]
+
+
 def prep_graphs(ctx):
     nodes, edges = (3, 1) if ctx.quick else (3, 3)
-    cfg = "CONSTANTS\n  MaxNodes = %d\n  MaxEdges = %d\nINIT Init\nNEXT Next\nINVARIANTS TypeOK CyclesNeedLate Emit\nPOSTCONDITION Post\n" % (nodes, edges)
-    r = ctx.tlc_ok("C02MCGraph", "C02MCGraph.cfg", cfg_text=cfg, workers=8, heap="8g", timeout=3000)
-    meta = meta_of(r["out"])
+    # two runs of the same module: every kind with few later edges, and the ORDERED kinds (lists and tuples: the operands of
+    # <, sorted) with three later edges, where two cyclic nodes of different lengths exist
+    runs = [("all", ALLKINDS, nodes, edges)] + ([("ordered", ["list", "tuple"], 3, 3)] if ctx.quick else [])
     f = ctx.path("graphs.ndjson")
     n = evals = cyc = 0
+    seen = set()
     with open(f, "w") as out:
-        for l in r["out"].split("\n"):
-            if l.startswith('"G{'):
-                g = json.loads(tla_unquote(l)[1:])
-                n += 1
-                g["id"] = n
-                evals += len(g["kinds"]) * len(g["ops"])
-                cyc += g["cyc"]
-                out.write(json.dumps(g, separators=(",", ":")) + "\n")
-    r["out"] = ""
-    if n < 100:
-        raise vlib.MachineryError("graph emission incomplete (%d)" % n)
-    ctx.log("graphs: <=%d nodes, <=%d later edges: %d TLC states, %d constructions (%d cyclic) x nodes x %d ops = %d evaluations declared"
-            % (nodes, edges, meta["distinct"], n, cyc, len(meta["ops"]), evals))
+        for tag, kinds, nn, ee in runs:
+            cfg = ("CONSTANTS\n  MaxNodes = %d\n  MaxEdges = %d\n  KindFilter = {%s}\nINIT Init\nNEXT Next\nINVARIANTS TypeOK CyclesNeedLate Emit\nPOSTCONDITION Post\n"
+                   % (nn, ee, ", ".join('"%s"' % k for k in kinds)))
+            r = ctx.tlc_ok("C02MCGraph", "C02MCGraph-%s.cfg" % tag, cfg_text=cfg, workers=8, heap="8g", timeout=3000)
+            meta = meta_of(r["out"])
+            k0 = n
+            for l in r["out"].split("\n"):
+                if l.startswith('"G{'):
+                    g = json.loads(tla_unquote(l)[1:])
+                    key = json.dumps(g["hist"])
+                    if key in seen:
+                        continue
+                    seen.add(key)
+                    n += 1
+                    g["id"] = n
+                    evals += len(g["kinds"]) * len(g["ops"])
+                    cyc += g["cyc"]
+                    out.write(json.dumps(g, separators=(",", ":")) + "\n")
+            r["out"] = ""
+            if n - k0 < 100:
+                raise vlib.MachineryError("graph emission incomplete (%s: %d)" % (tag, n - k0))
+            ctx.log("graphs (%s kinds): <=%d nodes, <=%d later edges: %d TLC states, %d new constructions" % (tag, nn, ee, meta["distinct"], n - k0))
+    ctx.log("graphs: %d constructions (%d cyclic) x nodes x %d ops = %d evaluations declared" % (n, cyc, len(meta["ops"]), evals))
     return {"file": f, "n": n, "evals": evals, "cyclic": cyc, "nodes": nodes, "edges": edges, "ops": meta["ops"]}
 
 
